@@ -13,4 +13,5 @@ INVARIANT FlattenLength
 INVARIANT RoundTrip
 INVARIANT AsCodedListOnUniform
 INVARIANT AsCodedListOnlyUniform
+INVARIANT TomoNormalised
 INVARIANT EmitCase
